@@ -40,6 +40,19 @@ def make_domain(cfg, n=N):
     return d
 
 
+def regrid_domain(w, r, rng):
+    """the Domain the same source meets next: length and spacing chosen so that the source (which matched the
+    first grid exactly) stands in relation r to it; realised through the Domain's own setters"""
+    n = len(w['k0'])
+    m = {'equal': n, 'shorter': int(rng.choice([n + 1, 2 * n])), 'longer': int(rng.choice([n - 1, n // 2]))}[r['lenRel']]
+    f = {'none': 1.0, 'exact': 1.0, 'within': 1.0 + 0.4e-5, 'beyond': 1.0 + 2.5e-5, 'rescaled': 1.01}[r['kRel']]
+    d = w['domain']
+    if m != n:
+        d.length = m
+    d.dk = w['dk0'] / f if f != 1.0 else w['dk0']
+    return d
+
+
 def source_arrays(src, k, rng):
     """(omega values, k column or None) of a source with the given relation to the domain grid k"""
     n = len(k)
@@ -92,7 +105,7 @@ class OmegaAdapter(Adapter):
         k = np.array(dom.k)
         w, kk = source_arrays(src, k, rng)
         data = np.array(w)
-        world = {'src': src, 'dom': st['dom'], 'rank': st['rank'], 'domain': dom, 'k': k, 'data': data, 'kdata': None if kk is None else np.array(kk),
+        world = {'src': src, 'dom': st['dom'], 'rank': st['rank'], 'domain': dom, 'k': k, 'k0': np.array(k), 'dk0': float(dom.dk), 'regridded': False, 'rng': rng, 'data': data, 'kdata': None if kk is None else np.array(kk),
                  'stage': 'constructed', 'mutated': False, 'prism': None, 'caller': None, 'caller_k': None, 'init': st, 'hist': []}
         if src['origin'] in ('array', 'arrayk'):
             # what callers hand over: arrays for most, a plain list now and then
@@ -134,6 +147,15 @@ class OmegaAdapter(Adapter):
                 w['caller_k'][...] = w['caller_k'] * 3.0 + 1.0
             w['mutated'] = True
             return {}
+        if act == 'Regrid':
+            r = {'origin': w['src']['origin'], 'lenRel': l['lenRel'], 'kRel': l['kRel']}
+            d = regrid_domain(w, r, w['rng'])
+            w['k'] = np.array(d.k)
+            w['src'] = r
+            w['stage'] = 'constructed'
+            w['regridded'] = True
+            w['prism'] = None
+            return {}
         if act == 'Calculate':
             k = np.array(w['k'])
             try:
@@ -171,7 +193,7 @@ class OmegaAdapter(Adapter):
         import pyPRISM
         T = ['A', 'B'][:w['rank']]
         s = pyPRISM.System(T, kT=1.0)
-        s.domain = make_domain(w['dom'])
+        s.domain = copy.deepcopy(w['domain'])
         for i, t in enumerate(T):
             s.density[t] = 0.25 * (i + 1)
             s.diameter[t] = 1.0
@@ -199,7 +221,7 @@ class OmegaAdapter(Adapter):
         return {'ret': 'changed'}
 
     def project_checked(self, w):
-        st = {'src': w['src'], 'dom': w['dom'], 'rank': w['rank'], 'stage': w['stage'], 'mutated': w['mutated']}
+        st = {'src': w['src'], 'dom': w['dom'], 'rank': w['rank'], 'stage': w['stage'], 'mutated': w['mutated'], 'regridded': w['regridded']}
         src = w['src']
         problems = []
         det = {'source': src, 'domain': w['dom'], 'rank': w['rank'], 'stage': w['stage'], 'points': int(len(w['data'])), 'grid_points': int(len(w['k']))}
@@ -234,6 +256,9 @@ class OmegaWalker(NondetWalker):
         for k, outs in graph.out_list.items():
             d = {}
             for label, tk in outs:
+                if label['act'] == 'Regrid':
+                    d.setdefault(key_of(label), (label, []))[1].append(tk)
+                    continue
                 d.setdefault(label['act'], ({'act': label['act'], 'ret': 'verbatim' if label['act'] in ('Calculate', 'Build') else label.get('ret')}, []))[1].append(tk)
             self.by_label[k] = [d[x] for x in sorted(d)]
 
@@ -253,8 +278,8 @@ def run(ctx):
     for rep in range(3 if thorough else 1):
         ad = OmegaAdapter(ctx, ctx.seed + rep)
         w = OmegaWalker(ctx, g, ad, 'replay.OmegaSource.%d' % rep)
-        npaths, complete = w.all_label_paths(5)
-        nr = w.random_label_walks(400 if thorough else 60, 6, ctx.seed + rep)
+        npaths, complete = w.all_label_paths(4, budget=60000 if thorough else 12000)
+        nr = w.random_label_walks(2000 if thorough else 400, 8, ctx.seed + rep)
         ctx.stage('replay.OmegaSource', repetition=rep, graph_states=len(g.state), graph_edges=g.n_edges, action_sequences=npaths,
                   complete=complete, random_walks=nr, real_calls=w.steps, edges_hit=len(w.edges_hit))
     # direction B
